@@ -382,6 +382,8 @@ where
         self.refs.push(XRef::Promised);
         let primitive = obj.to_primitive(self)?;
         self.changes.insert(id, (primitive, 0));
+        // a lookup of this number that failed before the object existed may be cached
+        self.cache.clear();
         let rc = Shared::new(obj);
         let r = PlainRef { id, gen: 0 };
         
